@@ -138,6 +138,11 @@ def conformance_vocabulary(rnd):
             for inv in (False, True):
                 same([int(v) for v in lst(colsym.m_isin(arr(x), coll, invert=inv))], [int(v) for v in numpy.isin(x, coll, invert=inv)],
                      f"isin {x.tolist()} {coll!r} invert={inv}")
+        ba = numpy.array([rnd.random() < 0.5 for _ in range(n)])
+        bb = numpy.array([rnd.random() < 0.5 for _ in range(n)])
+        for lab, mod, real in (("bool+bool", arr(ba) + arr(bb), ba + bb), ("bool*bool", arr(ba) * arr(bb), ba * bb), ("bool+True", arr(ba) + True, ba + True),
+                               ("bool+1", arr(ba) + 1, ba + 1), ("bool*2.5", arr(ba) * 2.5, ba * 2.5), ("(x<=3)+(x<=4)", (arr(x) <= 3) + (arr(x) <= 4), (x <= 3) + (x <= 4))):
+            same([float(v) for v in lst(mod)], [float(v) for v in real.tolist()], f"{lab} {ba.tolist()} {bb.tolist()}")
         pos = numpy.array([rnd.randrange(n) for _ in range(n)])
         for op, uf in (("add", numpy.add), ("max", numpy.maximum), ("min", numpy.minimum)):
             real = numpy.zeros(n)
